@@ -275,16 +275,36 @@ Theorem finalize_sound_partial : forall near fzerob st d en rest,
   eval en e' = eval en e.
 Proof. exact (finalize_tree_sound_l F f0 f1 fadd fmul fsub fdiv fopp finv Fth). Qed.
 
-(* NOT PROVED: finalize_sound in full -- the value of every integrand of VForm.exprs is unchanged by
-   VForm.finalize for every form.  Missing beyond finalize_sound_partial:
-   - the traversal of SHARED nodes and of variable roots by mapexprs (a variable's root is rewritten once
-     per reference; the model traverses trees), and the bookkeeping that the helper definitions returned by
-     rpd_bf are added to the forest and evaluated before use (schedule_wf_sound gives this for an accepted order);
-   - replace_physical_derivs on input-field references (VarRefExpr) and insert_input_field_derivs / sym_index_to_seq;
-   - measure and normal expansion (dx -> W, ds -> SW), para_derivs_to_vars, _to_literal_vec_mat for arbitrary sizes;
-   - physical derivatives in dimension > 3 or of order > 2 (the code raises for order > 2).
-   These remain covered by the exact oracle on every pass of every generated form and by the regenerated
-   obligations coq/gen/.../C06_ops_*.v only. *)
+(* NOT PROVED: finalize_sound in full -- "for every form, VForm.finalize leaves the value of every integrand
+   of VForm.exprs unchanged" as ONE theorem about a model of the whole of finalize.
+   Proved pieces (Props.v and Props2.v):
+   - trees: every pass as a value-preserving node function + the traversal (transform_sound, passes_compose,
+     finalize_sound_partial);
+   - forests (variable references = shared nodes): transform_forest_sound, finalize_forest_sound_partial (the
+     environment computed by the emitted order is unchanged when every definition is rewritten once),
+     add_helper_defs_sound (helper definitions with fresh names), schedule_wf_sound / schedule_computes_the_denotation;
+   - node functions: fold_constants (fold1_sound), replace_physical_derivs on basis functions (physical_grad/hess_sound_d,
+     spacetime_split_sound_2/3) and on input fields (field_physical_grad/hess_sound_d), insert_input_field_derivs
+     (insert_input_field_derivs_sound), CSE replacement (cse_sound), trivial variables, vector components
+     (vec_component_subst_sound), operator expansions (det_spec_n, inv_spec_n, cross_spec, reduce_add_sound),
+     measure and normal (volume_weight_spec_2, normal_21/32_spec, surface_weight_spec_32, surface_normal_21/32_spec).
+   Still missing for the single end-to-end theorem:
+   - the instantiation of finalize_forest_sound_partial with the CONCRETE list of passes of VForm.finalize: the
+     predicate P (jets-consistent environments, stable under binding) has to be shown for rpd_node / rpd_vr /
+     iifd simultaneously, and the passes that ADD definitions (measure expansion, replace_physical_derivs,
+     para_derivs_to_vars, CSE) have to be modelled as forest -> forest functions, not only as node functions
+     plus add_helper_defs_sound;
+   - mapexprs rewrites a variable's ROOT once per reference (the model rewrites each definition once): equal for
+     idempotent node functions only; not proved;
+   - the selection part of extract_common_expressions (hash counting, complexity, choice of the biggest) -- only the
+     replacement step is modelled;
+   - physical Hessian of input fields in dimension 3 (same 9 field identities as physical_hess_sound_3, not run for
+     the VarRefExpr leaves), physical derivatives of input fields in space-time forms (the code raises
+     AttributeError there), dimension > 3, order > 2 (the code raises);
+   - _to_literal_vec_mat / tensor operators for sizes > 3; sym_index_to_seq bijectivity for n > 3;
+   - |det J| and sqrt themselves (uninterpreted): that abs(det J) is the volume element and sqrt(x)^2 = x.
+   All of these remain covered by the exact oracle on every pass of every generated form, by the rule-level ties
+   (fold / dx / lit / rpd / rpdv / iifd / vec / opsm) and by the regenerated obligations (coq/gen/.../C06_ops_NAME.v). *)
 
 End Statements.
 
